@@ -311,11 +311,21 @@ func (m *Muxer) retransmitTables(force bool) (int, error) {
 func (m *Muxer) WriteTables() (int, error) {
 	bytesWritten := 0
 
+	// Tables that can't be generated must not consume versions or continuity counters
+	patVersion, pmtVersion, patCC, pmtCC := m.patVersion, m.pmtVersion, m.patCC, m.pmtCC
+	pmUpdated, pmtUpdated := m.pmUpdated, m.pmtUpdated
+	rollback := func() {
+		m.patVersion, m.pmtVersion, m.patCC, m.pmtCC = patVersion, pmtVersion, patCC, pmtCC
+		m.pmUpdated, m.pmtUpdated = pmUpdated, pmtUpdated
+	}
+
 	if err := m.generatePAT(); err != nil {
+		rollback()
 		return bytesWritten, err
 	}
 
 	if err := m.generatePMT(); err != nil {
+		rollback()
 		return bytesWritten, err
 	}
 
